@@ -32,6 +32,8 @@ structure StageCfg where
   enabled : Option Bool       -- context["stageEnabled"]
   maxj : Option Int           -- context["_max_jumps"]
   tasks : List (List Outcome) -- per task: outcome per execution, the last one repeats
+  split : List (Nat × Bool) := []   -- OR-split (`split_type = OR`): downstream stage -> value of its `split_conditions`
+                                    -- expression (constant in the harness); `[]` = AND-split (no conditions)
   deriving Repr, Inhabited
 
 structure Cfg where
@@ -216,7 +218,9 @@ def finalStatus (c : Cfg) (s : State) (retry : Nat) : Option Status :=
     let otherIncomplete := (List.range c.n).any (fun i =>
       (s.stage i).status == .running || ((s.stage i).status == .notStarted && allUpContinuable c s i))
     if sts.contains .stopped && !otherIncomplete then some .succeeded
-    else if explicitlyWaiting s then none          -- waiting is not "stuck": no wait budget is spent on it
+    else if explicitlyWaiting s && !s.canceled then none   -- waiting is not "stuck": no wait budget is spent on it
+                                                           -- (F38 repair: unless a cancel is in progress - CancelStage pushes no
+                                                           -- CompleteWorkflow, this poll chain finalises the canceled workflow)
     else if retry ≥ c.waitMax then some .terminal
     else none
 
@@ -399,6 +403,27 @@ def joinTracking (c : Cfg) (s : State) (i : Nat) : List Txn :=
       else some [.setStage d { ds with completed := ds.completed ++ [i] }]
     else none
 
+/-- `_apply_split_logic`: which downstream stages an OR-split activates / skips (AND-split: all activated).
+    A downstream without a condition is activated; when no condition holds the first downstream is activated and
+    the others are skipped. -/
+def splitPartition (sc : StageCfg) (down : List Nat) : List Nat × List Nat :=
+  if sc.split.isEmpty then (down, [])
+  else
+    let act := down.filter (fun d => (sc.split.lookup d).getD true)
+    let skip := down.filter (fun d => !(sc.split.lookup d).getD true)
+    if act.isEmpty then (down.take 1, down.drop 1) else (act, skip)
+
+/-- the continuation a successfully completing stage pushes in its commit: StartStage for the activated downstream
+    stages, SkipStage for the others, CompleteWorkflow when it has no downstream.
+    (`_record_activated_branches` looks for the paired OR-join in `stage.execution`, which `retrieve_stage` fills with
+    the stage, its upstream and its synthetic stages only: the downstream join is never found and `_activated_branches`
+    is never written - the OR-join evaluates as an AND-join over its upstream, skipped branches being continuable.) -/
+def splitCont (sc : StageCfg) (down : List Nat) : List Eff :=
+  if down.isEmpty then [.push (.completeWorkflow 0)]
+  else
+    let p := splitPartition sc down
+    p.1.map (fun d => Eff.push (.startStage d 0)) ++ p.2.map (fun d => Eff.push (.skipStage d))
+
 def hCompleteStage (c : Cfg) (s : State) (id i : Nat) : List Txn :=
   let sc := c.stage i
   let st := s.stage i
@@ -415,8 +440,7 @@ def hCompleteStage (c : Cfg) (s : State) (id i : Nat) : List Txn :=
       let st' := { st with status := status }
       if status == .succeeded || status == .failedContinue || status == .skipped then
         let down := c.down i
-        let cont : List Eff := if down.isEmpty then [.push (.completeWorkflow 0)] else down.map (fun d => .push (.startStage d 0))
-        joinTracking c s i ++ [[.setStage i st', .mark id] ++ cont]
+        joinTracking c s i ++ [[.setStage i st', .mark id] ++ splitCont sc down]
       else
         [[.setStage i st', .push (.cancelStage i), .push (.completeWorkflow 0)]]
 
@@ -446,7 +470,7 @@ def completeWorkflowRaises (c : Cfg) (s : State) (retry : Nat) : Bool :=
 def hCompleteWorkflow (c : Cfg) (s : State) (id retry : Nat) : List Txn :=
   if s.wfStatus.isComplete then []
   else match finalStatus c s retry with
-    | none => if explicitlyWaiting s then [] else [[.push (.completeWorkflow (retry + 1))]]
+    | none => if explicitlyWaiting s && !s.canceled then [] else [[.push (.completeWorkflow (retry + 1))]]
     | some status =>
       if !Status.canTransition s.wfStatus status then [] else
       let running := if status != .succeeded then (List.range c.n).filter (fun i => (s.stage i).status == .running) else []
@@ -567,6 +591,7 @@ def canStart (c : Cfg) (s : State) (i : Nat) : Bool :=
   let sc := c.stage i
   if sc.reqs.isEmpty then true
   else if (sc.join == .discriminator || sc.join == .nOfM) && (s.stage i).joinFired then false
+  else if sc.reqs.any (fun u => ((c.stage u).split.lookup i).isSome) then false   -- F39 repair: an OR-split decides
   else if sc.join == .nOfM then
     if sc.threshold > (sc.reqs.length : Int) then false
     else (((sc.reqs.filter (fun u => (s.stage u).status.isContinuable)).length : Nat) : Int) ≥ sc.threshold
@@ -713,19 +738,28 @@ def optNat? (s : String) : Option (Option Nat) :=
 def optInt? (s : String) : Option (Option Int) :=
   if s == "-" then some none else (Parse.int? s).map some
 
+def parseStage8 (reqs join th cont failp en maxj tasks : String) : Option StageCfg := do
+  let reqs ← Parse.natList? reqs
+  let join ← JoinType.ofName? join
+  let threshold ← Parse.int? th
+  let cont ← Parse.bool? cont
+  let failp ← Parse.bool? failp
+  let enabled ← (if en == "-" then some none else (Parse.bool? en).map some)
+  let maxj ← optInt? maxj
+  let tasks ← (if tasks == "-" then some [] else
+    Parse.all? (fun t => Parse.all? parseOutcome (t.splitOn ".")) (tasks.splitOn "+"))
+  pure { reqs, join, threshold, cont, failp, enabled, maxj, tasks }
+
 def parseStage (s : String) : Option StageCfg :=
   match s.splitOn "/" with
-  | [reqs, join, th, cont, failp, en, maxj, tasks] => do
-    let reqs ← Parse.natList? reqs
-    let join ← JoinType.ofName? join
-    let threshold ← Parse.int? th
-    let cont ← Parse.bool? cont
-    let failp ← Parse.bool? failp
-    let enabled ← (if en == "-" then some none else (Parse.bool? en).map some)
-    let maxj ← optInt? maxj
-    let tasks ← (if tasks == "-" then some [] else
-      Parse.all? (fun t => Parse.all? parseOutcome (t.splitOn ".")) (tasks.splitOn "+"))
-    pure { reqs, join, threshold, cont, failp, enabled, maxj, tasks }
+  | [reqs, join, th, cont, failp, en, maxj, tasks, split] => do
+    let base ← parseStage8 reqs join th cont failp en maxj tasks
+    let split ← (if split == "-" then some [] else
+      Parse.all? (fun kv => match kv.splitOn ":" with
+        | [d, b] => do pure ((← Parse.nat? d), (← Parse.bool? b))
+        | _ => none) (split.splitOn "."))
+    pure { base with split := split }
+  | [reqs, join, th, cont, failp, en, maxj, tasks] => parseStage8 reqs join th cont failp en maxj tasks
   | _ => none
 
 def parseCfg (s : String) : Option Cfg :=
